@@ -7,6 +7,8 @@ import (
 
 //verif:stub crypto/aes.NewCipher zzverifstubs.NewCipher
 //verif:stub crypto/cipher.NewGCM zzverifstubs.NewGCM
+//verif:stub crypto/cipher.NewGCMWithTagSize zzverifstubs.NewGCMWithTagSize
+//verif:stub crypto/cipher.NewGCMWithNonceSize zzverifstubs.NewGCMWithNonceSize
 //verif:stub crypto/cipher.NewCBCEncrypter zzverifstubs.NewCBCEncrypter
 //verif:stub crypto/cipher.NewCBCDecrypter zzverifstubs.NewCBCDecrypter
 //verif:stub golang.org/x/crypto/chacha20poly1305.New zzverifstubs.NewChaCha
